@@ -66,3 +66,10 @@ pub proof fn vacuity_canary_must_fail(x: int)
 
 /// window actually needed after `n` bytes with dictionary size `dict` fits the memory limit
 pub open spec fn mem_ok(dict: nat, memlimit: nat, n: nat) -> bool { (if n <= dict { n } else { dict }) <= memlimit }
+
+pub broadcast proof fn lemma_skip_skip(s: Seq<u8>, a: int, b: int)
+    requires 0 <= a, 0 <= b, a + b <= s.len(),
+    ensures #[trigger] s.skip(a).skip(b) == s.skip(a + b),
+{
+    assert(s.skip(a).skip(b) =~= s.skip(a + b));
+}
